@@ -131,12 +131,26 @@ func runC17Two(c *Ctx) {
 				nPhaseOne++
 			}
 		}
+		sessionsBefore := w.Eng.SessionCount()
 		if order == "12" {
 			deliver(0)
 			deliver(1)
 		} else {
 			deliver(1)
 			deliver(0)
+		}
+		sessionsAfter := w.Eng.SessionCount()
+		// what the resource still keeps for phase two once both branches are finished
+		var kept []string
+		if len(brs) > 0 {
+			if v, ok := datasource.GetDataSourceManager(branch.BranchTypeXA).GetCachedResources().Load(brs[0].ResourceID); ok {
+				v.(*sql2.DBResource).GetKeeper().Range(func(k, _ interface{}) bool {
+					if id := fmt.Sprint(k); id == idOf(0) || id == idOf(1) {
+						kept = append(kept, id)
+					}
+					return true
+				})
+			}
 		}
 		// ---- trace: the registrations are placed before their XA START
 		var toks []string
@@ -216,6 +230,12 @@ func runC17Two(c *Ctx) {
 			if st[k] != want {
 				fail("phase_two_not_applied", fmt.Sprintf("branch %d: decision %s, state %s", k+1, dec(d[k]), st[k]))
 			}
+		}
+		if len(kept) > 0 {
+			fail("finished_branch_still_kept", fmt.Sprintf("both branches went through phase two, the resource still keeps a connection for %v", kept))
+		}
+		if !during && errs[0] == nil && errs[1] == nil && sessionsAfter > sessionsBefore {
+			fail("phase_two_opened_a_connection", fmt.Sprintf("%d connections before phase two, %d after: a prepared branch whose connection is kept is finished on that connection", sessionsBefore, sessionsAfter))
 		}
 		c.Out.Oracle(cid, class == "", class, detail+" | "+obs)
 		c.Out.Tag(cid, "nontrivial=1")
